@@ -43,28 +43,76 @@ def _t(v: Any) -> Any:
     return SInt.lift(v)
 
 
+def _conc(*a: Any) -> bool:
+    return all(isinstance(x, int) and not isinstance(x, bool) for x in a)
+
+
+def real_calc(ordinal: int) -> Any:
+    """The real calculator of a concrete calendar ordinal (used when a contract is re-evaluated on concrete inputs)."""
+    from pyoda_time import CalendarSystem
+    from pyoda_time._calendar_ordinal import _CalendarOrdinal
+
+    return CalendarSystem._for_ordinal(_CalendarOrdinal(ordinal))._year_month_day_calculator
+
+
 def soy(c: Any, y: Any) -> Any:
+    if _conc(c, y):
+        return real_calc(c)._get_start_of_year_in_days(y)
     return sym.mk_int(SOY(_t(c), _t(y)))
 
 
 def diy(c: Any, y: Any) -> Any:
+    if _conc(c, y):
+        return real_calc(c)._get_days_in_year(y)
     return sym.mk_int(DIY(_t(c), _t(y)))
 
 
 def miy(c: Any, y: Any) -> Any:
+    if _conc(c, y):
+        return real_calc(c)._get_months_in_year(y)
     return sym.mk_int(MIY(_t(c), _t(y)))
 
 
 def dim(c: Any, y: Any, m: Any) -> Any:
+    if _conc(c, y, m):
+        return real_calc(c)._get_days_in_month(y, m)
     return sym.mk_int(DIM(_t(c), _t(y), _t(m)))
 
 
 def dsm(c: Any, y: Any, m: Any) -> Any:
+    if _conc(c, y, m):
+        return real_calc(c)._get_days_from_start_of_year_to_start_of_month(y, m)
     return sym.mk_int(DSM(_t(c), _t(y), _t(m)))
 
 
 def leap(c: Any, y: Any) -> Any:
+    if _conc(c, y):
+        return bool(real_calc(c)._is_leap_year(y))
     return sym.mk_bool(LEAP(_t(c), _t(y)))
+
+
+class ConcreteCal:
+    """A real calendar standing in for an abstract one when a counterexample is replayed on the real code."""
+
+    def __init__(self, ordinal: int) -> None:
+        from pyoda_time import CalendarSystem
+        from pyoda_time._calendar_ordinal import _CalendarOrdinal
+
+        self.ordinal = ordinal
+        self.cid = ordinal
+        self.system = CalendarSystem._for_ordinal(_CalendarOrdinal(ordinal))
+        self.calc = self.system._year_month_day_calculator
+        self.min_year = self.system.min_year
+        self.max_year = self.system.max_year
+
+    def valid_date(self, y: Any, m: Any, d: Any) -> bool:
+        return self.min_year <= y <= self.max_year and 1 <= m <= self.calc._get_months_in_year(y) and 1 <= d <= self.calc._get_days_in_month(y, m)
+
+    def clamp(self, y: int, m: int, d: int) -> tuple[int, int, int]:
+        y = min(max(y, self.min_year), self.max_year)
+        m = min(max(m, 1), self.calc._get_months_in_year(y))
+        d = min(max(d, 1), self.calc._get_days_in_month(y, m))
+        return y, m, d
 
 
 def dse(c: Any, y: Any, m: Any, d: Any) -> Any:
